@@ -89,7 +89,7 @@ inductive Act
   | unpackP (n : Nat)          -- a, b = p
   | parseCmd (intnums : Bool)  -- Command._parse_line(spline, intnums)
   | parseRestr                 -- Restraint._parse_line(spline)
-  | card (cls : String)        -- Cls(self, spline)
+  | card (cls : String) (idx : Nat)   -- Cls(self, spline); `idx` = position of the class in `Tables.cards`
   | raise (e : Err)
   | stop                       -- `continue`
   | setLast (kw : String)      -- lastcard = kw
@@ -104,10 +104,13 @@ structure Step where
   act : Act
   deriving DecidableEq, Repr
 
+/-- a keyword as a number (base 256 of its characters): the kernel compares numbers much faster than strings -/
+def encode (s : String) : Nat := s.toList.foldl (fun a c => a * 256 + c.toNat) 0
+
 inductive Test
-  | wordEq (kw : String)
-  | wordIn (kws : List String)
-  | starts (pre : String)
+  | wordEq (kw : String) (code : Nat)                -- `code = encode kw`, checked by `codes_consistent`
+  | wordIn (kws : List String) (codes : List Nat)
+  | starts (pre : String) (code : Nat)               -- `line.startswith(pre)`: the keyword *is* `pre` (REM, END)
   | isAtom
   | otherwise
   deriving DecidableEq, Repr
@@ -125,6 +128,7 @@ structure CardReq where
 /-- what the regenerated file provides -/
 structure Tables where
   shxCards : List String
+  shxCodes : List Nat := shxCards.map encode
   dispatch : List Branch
   cards : List CardReq
   atomMinCols : Nat
@@ -163,6 +167,9 @@ def Cond.eval (assumedFalse : List String) (m : Mode) (st : St) : Cond → Bool
 
 def allFloat (l : List Kind) : Bool := l.all Kind.floatOk
 
+/-- the parser attributes whose truthiness the handlers test, in a fixed order (so that contexts are canonical) -/
+def flagUniverse : List String := ["cell", "latt", "sfac", "frag", "end"]
+
 /-- `Command._parse_line`: a token whose first character is a digit or sign goes through `float()`/`int()` -/
 def parseCmdOk (dot intnums : Bool) (l : List Kind) : Bool :=
   l.all fun k => !k.cmdNumeric dot || (if intnums then k.intOk else k.floatOk)
@@ -195,11 +202,11 @@ def execBasic (st : St) : Act → Except Err St
       match st.s with
       | [] => .error .IndexError
       | _ :: r => .ok { st with np := countP st.dot true r, nw := r.length - countP st.dot true r }
-  | .card _ => .error .Other          -- resolved by `exec`
+  | .card _ _ => .error .Other        -- resolved by `exec`
   | .raise e => .error e
   | .stop => .ok { st with stopped := true }
   | .setLast k => .ok { st with last := k }
-  | .setFlag f v => .ok { st with flags := if v then f :: st.flags.erase f else st.flags.filter (· != f) }
+  | .setFlag f v => .ok { st with flags := flagUniverse.filter fun g => if g == f then v else st.flags.contains g }
   | .unknown _ => .error .Other
 
 /-- one step under its guard; an exception of a caught class marks the try as caught and goes on -/
@@ -223,8 +230,8 @@ def runBasic (af : List String) (m : Mode) (st : St) (steps : List Step) : Excep
 
 /-- acts of the dispatch chain: `card` runs the constructor's requirements on the same spline -/
 def exec (T : Tables) (m : Mode) (st : St) : Act → Except Err St
-  | .card cls =>
-    match T.cards.find? (·.name == cls) with
+  | .card cls idx =>
+    match T.cards[idx]? with
     | none => .error .Other
     | some c =>
       match runBasic T.assumedFalse m { st with np := 0, nw := 0, caught := [], stopped := false } c.steps with
@@ -242,15 +249,17 @@ def runSteps (T : Tables) (m : Mode) (st : St) (steps : List Step) : Except Err 
 structure Form where
   kw : String
   toks : List Kind
+  code : Nat := encode kw     -- numeric keyword: the kernel compares numbers, not strings
   deriving DecidableEq, Repr
 
 def Form.spline (f : Form) : List Kind := .word :: f.toks
 
-/-- `line[:4]` of the upper-cased line -/
-def Form.word (f : Form) : String :=
-  if f.kw.length ≥ 4 then String.ofList (f.kw.toList.take 4) else if f.toks.isEmpty then f.kw else String.ofList ((f.kw ++ " ").toList.take 4)
+/-- `line[:4]` of the upper-cased line, right-stripped.  (The chain compares `word` with four-letter constants only;
+    the three-letter keywords REM and END are tested with `line.startswith`; `SHX_CARDS` lists them with and without
+    the trailing blank.  Kept a plain projection so that the kernel does not rebuild the string at every branch.) -/
+def Form.word (f : Form) : String := f.kw
 
-def Form.isAtomName (T : Tables) (f : Form) : Bool := !T.shxCards.contains f.word
+def Form.isAtomName (T : Tables) (f : Form) : Bool := !T.shxCodes.contains f.code
 
 /-- `Shelxfile.is_atom` on the abstract line (column limit regenerated, coordinate limit 4.0 = kind `big`) -/
 def lineIsAtom (T : Tables) (f : Form) : Bool :=
@@ -259,11 +268,25 @@ def lineIsAtom (T : Tables) (f : Form) : Bool :=
     !(T.atomRejectsBig && ((f.spline.take 5).drop 2).any (· == .big))
 
 def Test.holds (T : Tables) (f : Form) : Test → Bool
-  | .wordEq k => f.word == k
-  | .wordIn ks => ks.contains f.word
-  | .starts p => p.isPrefixOf f.kw
+  | .wordEq _ k => f.code == k
+  | .wordIn _ ks => ks.contains f.code
+  | .starts _ c => f.code == c
   | .isAtom => lineIsAtom T f
   | .otherwise => true
+
+/-- the numeric keyword codes of the regenerated table are the codes of its strings -/
+def Test.codesOk : Test → Bool
+  | .wordEq k c => encode k == c
+  | .wordIn ks cs => ks.map encode == cs
+  | .starts p c => encode p == c
+  | _ => true
+
+def Act.cardIdxOk (cards : List CardReq) : Act → Bool
+  | .card cls i => (cards[i]?.map (·.name)) == some cls
+  | _ => true
+
+def Tables.codesOk (T : Tables) : Bool :=
+  T.dispatch.all (fun b => b.test.codesOk && b.steps.all (·.act.cardIdxOk T.cards)) && T.shxCards.map encode == T.shxCodes
 
 def selectBranch (T : Tables) (f : Form) : Option Branch := T.dispatch.find? (fun b => b.test.holds T f)
 
@@ -273,14 +296,28 @@ structure Ctx where
   flags : List String := []
   deriving DecidableEq, Repr
 
+/-- the handler of one selected branch on one line -/
+def runBranch (T : Tables) (m : Mode) (c : Ctx) (b : Branch) (f : Form) : Except Err Ctx :=
+  match runSteps T m { s := f.spline, last := c.last, flags := c.flags, dot := T.dotNumeric } b.steps with
+  | .ok st => .ok { last := st.last, flags := st.flags }
+  | .error e => .error e
+
 /-- one iteration of the loop of `_parse_cards` on a non-blank line -/
 def stepLine (T : Tables) (m : Mode) (c : Ctx) (f : Form) : Except Err Ctx :=
   match selectBranch T f with
   | none => .ok c
-  | some b =>
-    match runSteps T m { s := f.spline, last := c.last, flags := c.flags, dot := T.dotNumeric } b.steps with
-    | .ok st => .ok { last := st.last, flags := st.flags }
-    | .error e => .error e
+  | some b => runBranch T m c b f
+
+/-- branch selection for a line whose first word is one of `SHX_CARDS` (then `is_atom` is false whatever follows):
+    it depends on the keyword only, so it is computed once per keyword -/
+def Test.holdsKw (code : Nat) : Test → Bool
+  | .wordEq _ k => code == k
+  | .wordIn _ ks => ks.contains code
+  | .starts _ c => code == c
+  | .isAtom => false
+  | .otherwise => true
+
+def selectKw (T : Tables) (code : Nat) : Option Branch := T.dispatch.find? (fun b => b.test.holdsKw code)
 
 def accepts (T : Tables) (m : Mode) (c : Ctx) (f : Form) : Bool := (stepLine T m c f).toBool
 
@@ -310,10 +347,12 @@ inductive Slot
   | titl | cell | zerr | latt | symm | neut | sfac | disp | unit   -- header, in this order
   | body        -- anywhere between UNIT and HKLF (instruction section or atom list), and — leniently — elsewhere
   | fvar | hklf | endd | tail   -- FVAR before the atoms, HKLF, END, after END (WGHT suggestion, Q-peaks)
+  | frag | fend                 -- FRAG … FEND block inside the atom list
   deriving DecidableEq, Repr
 
 structure Syn where
   kw : String
+  code : Nat                         -- `encode kw` (checked by `syntax_codes_ok`)
   slot : Slot := .body
   mand : List Kind := []
   opts : List (List Kind) := []      -- optional parameter groups; any prefix of the list is legal
@@ -328,104 +367,106 @@ open Kind in
     `int` an integer one, `word` a name, `sym` a symmetry-operator fragment. -/
 def syntaxTable : List Syn := [
   -- header objects
-  { kw := "TITL", slot := .titl, tails := [[], [word], [word, word, int, sym]] },
-  { kw := "CELL", slot := .cell, mand := [num, big, big, big, big, big, big] },
-  { kw := "ZERR", slot := .zerr, mand := [num, num, num, num, num, num, num], alts := [[int, num, num, num, num, num, num]] },
-  { kw := "LATT", slot := .latt, opts := [[int]] },
-  { kw := "SYMM", slot := .symm, mand := [sym, sym, sym], alts := [[sym], [sym, word, sym], [word, sym, word]] },
-  { kw := "NEUT", slot := .neut },
-  { kw := "SFAC", slot := .sfac, tails := [[word], [word, word], [word, word, word, word]],
+  { kw := "TITL", code := 1414091852, slot := .titl, tails := [[], [word], [word, word, int, sym]] },
+  { kw := "CELL", code := 1128614988, slot := .cell, mand := [num, big, big, big, big, big, big] },
+  { kw := "ZERR", code := 1514492498, slot := .zerr, mand := [num, num, num, num, num, num, num], alts := [[int, num, num, num, num, num, num]] },
+  { kw := "LATT", code := 1279349844, slot := .latt, opts := [[int]] },
+  { kw := "SYMM", code := 1398361421, slot := .symm, mand := [sym, sym, sym], alts := [[sym], [sym, word, sym], [word, sym, word]] },
+  { kw := "NEUT", code := 1313166676, slot := .neut },
+  { kw := "SFAC", code := 1397113155, slot := .sfac, tails := [[word], [word, word], [word, word, word, word]],
     alts := [[word, num, num, num, num, num, num, num, num, num, num, num, num, num, num]] },
-  { kw := "DISP", slot := .disp, mand := [word, num, num], opts := [[num], [num]] },
-  { kw := "UNIT", slot := .unit, tails := [[num], [num, num, num], [int, int, int]] },
+  { kw := "DISP", code := 1145656144, slot := .disp, mand := [word, num, num], opts := [[num], [num]] },
+  { kw := "UNIT", code := 1431193940, slot := .unit, tails := [[num], [num, num, num], [int, int, int]] },
   -- numeric-parameter objects
-  { kw := "L.S.", opts := [[int], [int], [int]] },
-  { kw := "CGLS", opts := [[int], [int], [int]] },
-  { kw := "ABIN", mand := [int, int] },
-  { kw := "ACTA", opts := [[num]], tails := [[], [word]] },
-  { kw := "DAMP", opts := [[num], [int]] },
-  { kw := "FMAP", opts := [[int], [int], [int]] },
-  { kw := "GRID", opts := [[num], [num], [num], [num], [num], [num]] },
-  { kw := "HKLF", slot := .hklf, opts := [[int], [num], [int, int, int, int, int, int, int, int, int], [num], [int]] },
-  { kw := "MERG", opts := [[int]] },
-  { kw := "MORE", opts := [[int]] },
-  { kw := "MOVE", opts := [[num], [num], [num], [int]] },
-  { kw := "PLAN", opts := [[int], [num], [num]] },
-  { kw := "PRIG", opts := [[num]] },
-  { kw := "SHEL", opts := [[num], [num]] },
-  { kw := "SIZE", mand := [num, num, num] },
-  { kw := "SPEC", opts := [[num]] },
-  { kw := "STIR", mand := [num], opts := [[num]] },
-  { kw := "SWAT", opts := [[num], [num]] },
-  { kw := "TWIN", opts := [[int, int, int, int, int, int, int, int, int], [int]],
+  { kw := "L.S.", code := 1278104366, opts := [[int], [int], [int]] },
+  { kw := "CGLS", code := 1128746067, opts := [[int], [int], [int]] },
+  { kw := "ABIN", code := 1094863182, mand := [int, int] },
+  { kw := "ACTA", code := 1094931521, opts := [[num]], tails := [[], [word]] },
+  { kw := "DAMP", code := 1145130320, opts := [[num], [int]] },
+  { kw := "FMAP", code := 1179468112, opts := [[int], [int], [int]] },
+  { kw := "GRID", code := 1196575044, opts := [[num], [num], [num], [num], [num], [num]] },
+  { kw := "HKLF", code := 1212894278, slot := .hklf, opts := [[int], [num], [int, int, int, int, int, int, int, int, int], [num], [int]] },
+  { kw := "MERG", code := 1296388679, opts := [[int]] },
+  { kw := "MORE", code := 1297044037, opts := [[int]] },
+  { kw := "MOVE", code := 1297045061, opts := [[num], [num], [num], [int]] },
+  { kw := "PLAN", code := 1347174734, opts := [[int], [num], [num]] },
+  { kw := "PRIG", code := 1347569991, opts := [[num]] },
+  { kw := "SHEL", code := 1397245260, opts := [[num], [num]] },
+  { kw := "SIZE", code := 1397316165, mand := [num, num, num] },
+  { kw := "SPEC", code := 1397769539, opts := [[num]] },
+  { kw := "STIR", code := 1398032722, mand := [num], opts := [[num]] },
+  { kw := "SWAT", code := 1398227284, opts := [[num], [num]] },
+  { kw := "TWIN", code := 1415006542, opts := [[int, int, int, int, int, int, int, int, int], [int]],
     alts := [[num, num, num, num, num, num, num, num, num], [num, num, num, num, num, num, num, num, num, int]] },
-  { kw := "TWST", opts := [[int]] },
-  { kw := "WGHT", opts := [[num], [num], [num], [num], [num], [num]] },
-  { kw := "WIGL", opts := [[num], [num]] },
-  { kw := "WPDB", opts := [[int]] },
-  { kw := "XNPD", opts := [[num]] },
-  { kw := "BASF", tails := [[num], [num, num, num]] },
-  { kw := "SUMP", mand := [num, num], tails := [[num, int], [num, int, num, int], [num, int, num, int, num, int]] },
-  { kw := "FVAR", slot := .fvar, tails := [[num], [num, num], [num, num, num, num, num, num, num]] },
+  { kw := "TWST", code := 1415009108, opts := [[int]] },
+  { kw := "WGHT", code := 1464289364, opts := [[num], [num], [num], [num], [num], [num]] },
+  { kw := "WIGL", code := 1464420172, opts := [[num], [num]] },
+  { kw := "WPDB", code := 1464878146, opts := [[int]] },
+  { kw := "XNPD", code := 1481527364, opts := [[num]] },
+  { kw := "BASF", code := 1111577414, tails := [[num], [num, num, num]] },
+  { kw := "SUMP", code := 1398099280, mand := [num, num], tails := [[num, int], [num, int, num, int], [num, int, num, int, num, int]] },
+  { kw := "FVAR", code := 1180057938, slot := .fvar, tails := [[num], [num, num], [num, num, num, num, num, num, num]] },
   -- value only, line kept raw
-  { kw := "LIST", opts := [[int], [int]] },
-  { kw := "TEMP", opts := [[num]] },
-  { kw := "EXTI", opts := [[num]] },
-  { kw := "ANSC", mand := [num, num, num, num, num, num] },
-  { kw := "ANSR", opts := [[num]] },
-  { kw := "EQIV", mand := [word, sym, sym, sym], alts := [[word, sym], [word, sym, word, sym], [word, word, sym, word]] },
-  { kw := "OMIT", tails := [[word], [word, word, word]], alts := [[], [num], [num, num], [int, int, int]], suffix := true },
-  { kw := "LAUE", mand := [word] },
-  { kw := "REM", tails := [[], [word], [word, sym, int, num, word]] },
-  { kw := "END", slot := .endd },
+  { kw := "LIST", code := 1279873876, opts := [[int], [int]] },
+  { kw := "TEMP", code := 1413827920, opts := [[num]] },
+  { kw := "EXTI", code := 1163416649, opts := [[num]] },
+  { kw := "ANSC", code := 1095652163, mand := [num, num, num, num, num, num] },
+  { kw := "ANSR", code := 1095652178, opts := [[num]] },
+  { kw := "EQIV", code := 1162955094, mand := [word, sym, sym, sym], alts := [[word, sym], [word, sym, word, sym], [word, word, sym, word]] },
+  { kw := "OMIT", code := 1330465108, tails := [[word], [word, word, word]], alts := [[], [num], [num, num], [int, int, int]], suffix := true },
+  { kw := "LAUE", code := 1279350085, mand := [word] },
+  { kw := "REM", code := 5391693, tails := [[], [word], [word, sym, int, num, word]] },
+  { kw := "END", code := 4542020, slot := .endd },
+  { kw := "FRAG", code := 1179795783, slot := .frag, opts := [[int], [num, num, num, big, big, big]] },
+  { kw := "FEND", code := 1178947140, slot := .fend },
   -- context objects
-  { kw := "RESI", alts := [[], [int], [word], [word, int], [int, word], [word, int, int], [int, word, int]] },
-  { kw := "PART", mand := [int], opts := [[num]] },
-  { kw := "AFIX", mand := [int], opts := [[num], [num], [num]] },
+  { kw := "RESI", code := 1380275017, alts := [[], [int], [word], [word, int], [int, word], [word, int, int], [int, word, int]] },
+  { kw := "PART", code := 1346458196, mand := [int], opts := [[num]] },
+  { kw := "AFIX", code := 1095125336, mand := [int], opts := [[num], [num], [num]] },
   -- atom-list objects
-  { kw := "ANIS", tails := [[], [int], [word], [word, word, word]], suffix := true },
-  { kw := "BIND", alts := [[word, word], [int, int]] },
-  { kw := "BLOC", mand := [int, int], tails := [[], [word], [word, word, word]], suffix := true },
-  { kw := "BOND", tails := [[], [word], [word, word, word]], suffix := true },
-  { kw := "CONF", alts := [[], [word, word, word, word], [word, word, word, word, num], [word, word, word, word, num, num]], suffix := true },
-  { kw := "CONN", opts := [[int], [num]], tails := [[], [word], [word, word]], alts := [[word, int]], suffix := true },
-  { kw := "FREE", mand := [word, word] },
-  { kw := "HFIX", mand := [int], opts := [[num], [num]], tails := [[word], [word, word, word]], suffix := true },
-  { kw := "HTAB", alts := [[], [num], [word, word]], suffix := true },
-  { kw := "MPLA", alts := [[int, word, word, word], [word, word, word], [int, word, word, word, word]], suffix := true },
-  { kw := "RTAB", mand := [word], tails := [[word, word], [word, word, word], [word, word, word, word]], suffix := true },
+  { kw := "ANIS", code := 1095649619, tails := [[], [int], [word], [word, word, word]], suffix := true },
+  { kw := "BIND", code := 1112100420, alts := [[word, word], [int, int]] },
+  { kw := "BLOC", code := 1112297283, mand := [int, int], tails := [[], [word], [word, word, word]], suffix := true },
+  { kw := "BOND", code := 1112493636, tails := [[], [word], [word, word, word]], suffix := true },
+  { kw := "CONF", code := 1129270854, alts := [[], [word, word, word, word], [word, word, word, word, num], [word, word, word, word, num, num]], suffix := true },
+  { kw := "CONN", code := 1129270862, opts := [[int], [num]], tails := [[], [word], [word, word]], alts := [[word, int]], suffix := true },
+  { kw := "FREE", code := 1179796805, mand := [word, word] },
+  { kw := "HFIX", code := 1212565848, mand := [int], opts := [[num], [num]], tails := [[word], [word, word, word]], suffix := true },
+  { kw := "HTAB", code := 1213481282, alts := [[], [num], [word, word]], suffix := true },
+  { kw := "MPLA", code := 1297108033, alts := [[int, word, word, word], [word, word, word], [int, word, word, word, word]], suffix := true },
+  { kw := "RTAB", code := 1381253442, mand := [word], tails := [[word, word], [word, word, word], [word, word, word, word]], suffix := true },
   -- restraints
-  { kw := "DEFS", opts := [[num], [num], [num], [num], [num]] },
-  { kw := "DFIX", mand := [num], opts := [[num]], tails := [[word, word], [word, word, word, word]], suffix := true },
-  { kw := "DANG", mand := [num], opts := [[num]], tails := [[word, word], [word, word, word, word]], suffix := true },
-  { kw := "SADI", opts := [[num]], tails := [[word, word, word, word], [word, word, word, word, word, word]], suffix := true },
-  { kw := "SAME", opts := [[num], [num]], tails := [[word], [word, word, word]], suffix := true },
-  { kw := "FLAT", opts := [[num]], tails := [[word, word, word, word], [word, word, word, word, word]], suffix := true },
-  { kw := "CHIV", opts := [[num], [num]], tails := [[word], [word, word]], suffix := true },
-  { kw := "DELU", opts := [[num], [num]], tails := [[], [word, word]], suffix := true },
-  { kw := "SIMU", opts := [[num], [num], [num]], tails := [[], [word, word]], suffix := true },
-  { kw := "RIGU", opts := [[num], [num]], tails := [[], [word, word]], suffix := true },
-  { kw := "ISOR", opts := [[num], [num]], tails := [[], [word, word]], suffix := true },
-  { kw := "NCSY", mand := [int], opts := [[num], [num]], tails := [[], [word, word]], suffix := true },
-  { kw := "BUMP", opts := [[num]] },
-  { kw := "EADP", tails := [[word, word], [word, word, word]], suffix := true },
-  { kw := "EXYZ", tails := [[word, word], [word, word, word]], suffix := true },
+  { kw := "DEFS", code := 1145390675, opts := [[num], [num], [num], [num], [num]] },
+  { kw := "DFIX", code := 1145456984, mand := [num], opts := [[num]], tails := [[word, word], [word, word, word, word]], suffix := true },
+  { kw := "DANG", code := 1145130567, mand := [num], opts := [[num]], tails := [[word, word], [word, word, word, word]], suffix := true },
+  { kw := "SADI", code := 1396786249, opts := [[num]], tails := [[word, word, word, word], [word, word, word, word, word, word]], suffix := true },
+  { kw := "SAME", code := 1396788549, opts := [[num], [num]], tails := [[word], [word, word, word]], suffix := true },
+  { kw := "FLAT", code := 1179402580, opts := [[num]], tails := [[word, word, word, word], [word, word, word, word, word]], suffix := true },
+  { kw := "CHIV", code := 1128810838, opts := [[num], [num]], tails := [[word], [word, word]], suffix := true },
+  { kw := "DELU", code := 1145392213, opts := [[num], [num]], tails := [[], [word, word]], suffix := true },
+  { kw := "SIMU", code := 1397312853, opts := [[num], [num], [num]], tails := [[], [word, word]], suffix := true },
+  { kw := "RIGU", code := 1380534101, opts := [[num], [num]], tails := [[], [word, word]], suffix := true },
+  { kw := "ISOR", code := 1230196562, opts := [[num], [num]], tails := [[], [word, word]], suffix := true },
+  { kw := "NCSY", code := 1313035097, mand := [int], opts := [[num], [num]], tails := [[], [word, word]], suffix := true },
+  { kw := "BUMP", code := 1112886608, opts := [[num]] },
+  { kw := "EADP", code := 1161905232, tails := [[word, word], [word, word, word]], suffix := true },
+  { kw := "EXYZ", code := 1163417946, tails := [[word, word], [word, word, word]], suffix := true },
   -- keywords of SHELXL the library lists (SHX_CARDS) but does not document: kept raw
-  { kw := "TIME", opts := [[num]], documented := false },
-  { kw := "MOLE", opts := [[int]], documented := false },
-  { kw := "HOPE", opts := [[int]], documented := false },
-  { kw := "CHAN", opts := [[int]], documented := false },
-  { kw := "FLAP", opts := [[int]], documented := false },
-  { kw := "RNUM", opts := [[int]], documented := false },
-  { kw := "SOCC", tails := [[], [word]], documented := false },
-  { kw := "RANG", opts := [[num]], tails := [[], [word, word, word]], documented := false },
-  { kw := "TANG", opts := [[num]], tails := [[], [word, word, word]], documented := false },
-  { kw := "ADDA", tails := [[], [word]], documented := false },
-  { kw := "STAG", opts := [[num]], tails := [[], [word]], documented := false },
-  { kw := "REST", tails := [[], [word]], documented := false },
-  { kw := "NOTR", documented := false },
-  { kw := "BEDE", tails := [[word, word, word, num, num]], documented := false },
-  { kw := "LONE", tails := [[int, word, num, num]], documented := false }
+  { kw := "TIME", code := 1414090053, opts := [[num]], documented := false },
+  { kw := "MOLE", code := 1297042501, opts := [[int]], documented := false },
+  { kw := "HOPE", code := 1213157445, opts := [[int]], documented := false },
+  { kw := "CHAN", code := 1128808782, opts := [[int]], documented := false },
+  { kw := "FLAP", code := 1179402576, opts := [[int]], documented := false },
+  { kw := "RNUM", code := 1380865357, opts := [[int]], documented := false },
+  { kw := "SOCC", code := 1397703491, tails := [[], [word]], documented := false },
+  { kw := "RANG", code := 1380011591, opts := [[num]], tails := [[], [word, word, word]], documented := false },
+  { kw := "TANG", code := 1413566023, opts := [[num]], tails := [[], [word, word, word]], documented := false },
+  { kw := "ADDA", code := 1094992961, tails := [[], [word]], documented := false },
+  { kw := "STAG", code := 1398030663, opts := [[num]], tails := [[], [word]], documented := false },
+  { kw := "REST", code := 1380275028, tails := [[], [word]], documented := false },
+  { kw := "NOTR", code := 1313821778, documented := false },
+  { kw := "BEDE", code := 1111835717, tails := [[word, word, word, num, num]], documented := false },
+  { kw := "LONE", code := 1280265797, tails := [[int, word, num, num]], documented := false }
 ]
 
 def prefixes {α} : List (List α) → List (List α)
@@ -442,7 +483,7 @@ def restyle (to : Kind) (l : List Kind) : List Kind := l.map fun k => if k == .n
 def styles : List Kind := [.num, .int, .dnum]
 
 def Syn.forms (s : Syn) : List Form :=
-  (s.paramLists.flatMap fun p => styles.map fun st => ({ kw := s.kw, toks := restyle st p } : Form)).eraseDups
+  s.paramLists.flatMap fun p => styles.map fun st => ({ kw := s.kw, toks := restyle st p, code := s.code } : Form)
 
 def validForms (kw : String) : List Form := (syntaxTable.filter (·.kw == kw)).flatMap Syn.forms
 
@@ -462,7 +503,7 @@ def atomForms : List Form :=
     [.int, .num, .big, .big, .big, .big],
     [.int, .num, .num, .num, .big, .big, .num, .num, .num, .num, .num],
     [.int, .int, .int, .int, .big, .num]]
-  cols.map fun c => { kw := "C1", toks := c }
+  cols.map fun c => { kw := "C1", toks := c, code := 17201 }
 
 /-- where a header keyword may stand: the keyword that was seen last among TITL CELL ZERR LATT SYMM SFAC UNIT
     (the parser's `lastcard`) -/
@@ -478,6 +519,9 @@ def Slot.ctxs : Slot → List Ctx
   | .disp => [{ last := "SFAC", flags := ["cell", "latt", "sfac"] }]
   | .unit => [{ last := "SFAC", flags := ["cell", "latt", "sfac"] }]
   | .tail => [{ last := "UNIT", flags := ["cell", "latt", "sfac", "end"] }]
+  | .fend => [{ last := "UNIT", flags := ["cell", "latt", "sfac", "frag"] }]
+  | .body => [{ last := "ZERR", flags := ["cell", "latt"] }, { last := "SYMM", flags := ["cell", "latt"] },
+              { last := "UNIT", flags := ["cell", "latt", "sfac"] }, { last := "UNIT", flags := ["cell", "latt", "sfac", "end"] }]
   | _ => [{ last := "UNIT", flags := ["cell", "latt", "sfac"] }, { last := "UNIT", flags := ["cell", "latt", "sfac", "end"] }]
 
 def slotOf (kw : String) : Slot := match syntaxTable.find? (·.kw == kw) with | some s => s.slot | none => .body
@@ -496,6 +540,44 @@ def assumed : List String := [
   "not:self.d", "not:self.DN",                                       -- DFIX/DANG d and NCSY DN are not zero
   "not:line.strip()"                                                 -- the line is not blank
 ]
+
+def Slot.isBody (s : Slot) : Bool := s == .body || s == .fvar || s == .hklf || s == .endd
+
+/-- every (context, line) pair the syntax allows -/
+def allValidCases : List (Ctx × Form) :=
+  syntaxTable.flatMap fun s => s.slot.ctxs.flatMap fun c => s.forms.map fun f => (c, f)
+
+/-- an atom line none of whose coordinates carries a free-variable code -/
+def plainCoords (f : Form) : Bool := !((f.toks.take 4).drop 1).any (· == .big)
+
+/-- the section of a file between UNIT and the end: instructions, FVAR, atoms, HKLF, END, WGHT, Q-peaks
+    (FRAG…FEND blocks and coded coordinates are the open findings and stay outside) -/
+def bodyForms : List Form :=
+  ((syntaxTable.filter fun s => s.slot.isBody).flatMap Syn.forms)
+    ++ atomForms.filter plainCoords
+
+def bodyCtxs : List Ctx :=
+  [{ last := "UNIT", flags := ["cell", "latt", "sfac"] }, { last := "UNIT", flags := ["cell", "latt", "sfac", "end"] }]
+
+/-- everything the table-driven theorems need to know about one entry of the syntax table, computed with ONE
+    branch selection per keyword: the keyword is listed in `SHX_CARDS` (so the line is never taken for an atom), a
+    keyword branch (not the final `else`) handles it, every legal form is accepted in every context the syntax
+    allows and in every mode, and a body line met in a body context leaves a body context behind -/
+def entryOk (T : Tables) (s : Syn) : Bool :=
+  T.shxCodes.contains s.code &&
+  match selectKw T s.code with
+  | some b => b.test != .otherwise && s.slot.ctxs.all fun c => s.forms.all fun f => allModes.all fun m =>
+      match runBranch T m c b f with
+      | .ok c' => !(s.slot.isBody && bodyCtxs.contains c) || bodyCtxs.contains c'
+      | .error _ => false
+  | none => false
+
+/-- the same for the atom-line shapes with plain coordinates (selection through `is_atom` itself) -/
+def atomOk (T : Tables) (f : Form) : Bool :=
+  lineIsAtom T f && bodyCtxs.all fun c => allModes.all fun m =>
+    match stepLine T m c f with
+    | .ok c' => bodyCtxs.contains c'
+    | .error _ => false
 
 /-- SPEC: what the property says about a file of valid lines, in one mode -/
 def SpecHolds (o : Outcome) (n : Nat) : Prop := o.innerErr = none ∧ o.raised = none ∧ o.consumed = n ∧ o.lastLine = n - 1
